@@ -115,17 +115,44 @@ def denote (sem : Sem St E) : List (List Rule) → St → Except E St
 
 `NewSequence` parses the rule texts and `buildChain` turns them into the chain
 `Sequence.Exec` walks. What T2 reads from that code: how many nodes the loop
-over the rules appends per rule, and how many statements elsewhere in the
-package write a chain or the fields of a node after `newNode` made it. -/
+over the rules appends per rule, how many statements elsewhere in the
+package write a chain or the fields of a node after `newNode` made it, and how
+many returns of `newMatcher` can deliver a matcher without passing the wiring
+of '!'. -/
 structure Build where
   appendsPerRule : Nat
   rewrites : Nat
+  /-- returns of `newMatcher` that can deliver a matcher and sit before its
+  final `if mc.Reverse { m = reverseMatcher(m) }; return m, nil` -/
+  earlyMatcherReturns : Nat
+
+/-- What `newMatcher` leaves in the node for the configured matchers of rule
+`ri` (from position `mi` on). When every path that delivers a matcher passes
+the reverse wiring, the node holds `m` negated iff it was written with '!'. A
+return ahead of the wiring hands `m` out as it is, whatever was written; which
+occurrences leave that way (`early`, by rule and matcher position - e.g. "every
+occurrence after the first of the same text", when matchers are memoised) is
+unknown. -/
+def Build.wireMatchers (b : Build) (early : Nat → Nat → Bool) (ri : Nat) :
+    Nat → List (Bool × Nat) → List (Bool × Nat)
+  | _, [] => []
+  | mi, (rev, m) :: ms =>
+    ((if b.earlyMatcherReturns = 0 then rev else (rev && !early ri mi)), m) ::
+      wireMatchers b early ri (mi + 1) ms
+
+/-- `newNode` for every rule from index `ri` on: the rule's matchers as wired
+by `newMatcher`, the rule's own action. -/
+def Build.wireRules (b : Build) (early : Nat → Nat → Bool) : Nat → List Rule → List Rule
+  | _, [] => []
+  | ri, .mk ms act :: rs => .mk (b.wireMatchers early ri 0 ms) act :: wireRules b early (ri + 1) rs
 
 /-- The chain left in the `Sequence`: `appendsPerRule` nodes for every rule, in
-rule order; if any other code writes the chain or its nodes, what it does is
-unknown (`rewrite`, an arbitrary function). -/
-def Build.chain (b : Build) (rewrite : List Rule → List Rule) (rules : List Rule) : List Rule :=
-  let c := rules.flatMap (fun r => List.replicate b.appendsPerRule r)
+rule order, each with the matchers as `newMatcher` wired them; if any other
+code writes the chain or its nodes, what it does is unknown (`rewrite`, an
+arbitrary function). -/
+def Build.chain (b : Build) (rewrite : List Rule → List Rule) (early : Nat → Nat → Bool)
+    (rules : List Rule) : List Rule :=
+  let c := (b.wireRules early 0 rules).flatMap (fun r => List.replicate b.appendsPerRule r)
   if b.rewrites = 0 then c else rewrite c
 
 end Model.C06
